@@ -223,6 +223,11 @@ V("v_celsdata_new", "userdata", "CelsData::new(n): n rows, each with a single em
 V("v_parseinfo_new", "userdata", "ParseInfo::new: one frame slot per frame (default duration, empty cel row), no layers / tags / slices / palette / user data / context", ["parse::ParseInfo::new"], fn="ParseInfo::new")
 V("v_parseinfo_validate", "validate", "ParseInfo::validate (the validation stage glue): Ok => layers unchanged; every tileset has pixels; every tilemap layer's tileset exists; the cel table keeps its shape and every cel satisfies CelsData::validate's verdict against THESE layers and tilesets; frame times, slices, sprite user data and palette are passed through - i.e. the renderer's preconditions hold after every successful load",
   ["parse::ParseInfo::validate"], fn="ParseInfo::validate", witness="x_usable_after_load")
+V("v_extrude_border", "utils_extrude", "util::extrude_border for EVERY image with w, h >= 1 (sizes up to u32): result is (w+2) x (h+2) and byte c of output pixel (x, y) == byte c of input pixel (clamp(x-1, 0, w-1), clamp(y-1, 0, h-1)); no slice out of range, no overflow (the row iterator chain `once(0).chain(0..h).chain(once(h-1))` is a trusted shim)",
+  ["util::extrude_border"], fn="extrude_border", witness="x_utils")
+V("v_palette_mapper_new", "utils_palette", "util::PaletteMapper::new for EVERY palette (sparse, duplicates, indices >= 256) and options: a 24-bit colour key is mapped iff some entry has that colour, and then to the index of such an entry if it is below 256, else to the failure index; transparent = configured index or the failure index",
+  ["util::PaletteMapper::new"], fn="PaletteMapper::new", witness="x_utils")
+V("v_palette_mapper_lookup", "utils_palette", "util::PaletteMapper::lookup: alpha != 255 -> transparent index; otherwise the mapped index of the colour key or the failure index", ["util::PaletteMapper::lookup"], fn="PaletteMapper::lookup", witness="x_utils")
 V("v_tilesets_validate", "validate_tilesets", "TilesetsById::validate for EVERY tileset table: Ok => the same tileset ids survive; each has its pixels embedded (a tileset without embedded pixels is refused) and validated (same data; indexed pixels all in the palette); id, tile count, tile size, base index, name and external reference unchanged",
   ["tileset::TilesetsById::validate"], fn="TilesetsById::validate", witness=["x_refusals", "x_usable_after_load"])
 ACCESSORS = [('AsepriteFile', 'width'), ('AsepriteFile', 'height'), ('AsepriteFile', 'size'), ('AsepriteFile', 'pixel_format'), ('AsepriteFile', 'is_indexed_color'), ('AsepriteFile', 'transparent_color_index'), ('AsepriteFile', 'num_tags'), ('AsepriteFile', 'tag'), ('AsepriteFile', 'sprite_user_data'), ('Frame', 'id'), ('Frame', 'duration'), ('Layer', 'data'), ('Layer', 'id'), ('Layer', 'flags'), ('Layer', 'opacity'), ('Layer', 'layer_type'), ('Layer', 'is_tilemap'), ('Layer', 'user_data'), ('Layer', 'parent'), ('Cel', 'raw_cel'), ('Cel', 'is_empty'), ('Cel', 'is_tilemap'), ('Cel', 'top_left'), ('Cel', 'user_data'), ('Tag', 'from_frame'), ('Tag', 'to_frame'), ('Tag', 'animation_direction'), ('Tag', 'user_data')]
@@ -393,5 +398,5 @@ prop("C16", "other", ["s_send_sync", "x_determinism", "x_total_load", "v_check_c
 prop("C17", "proof", ["k_mul_un8", "k_blend8", "k_merge", "k_normal_alpha", "k_pack_i32", "k_pack_f64", "k_ch_soft_light_range", "k_blender"] + ["k_law_" + m for m in ALL_MODES] + ["k_normal_r", "k_normal_g", "k_normal_b"]
      + ["k_ch_" + m for m in ["multiply", "screen", "overlay", "darken", "lighten", "color_dodge", "color_burn", "hard_light", "difference", "exclusion", "divide"]] + ["k_mode_addition", "k_mode_subtract", "x_hsl_kernels", "x_blend_public_api", "x_tilemap_views", "v_write_raw_cel", "v_write_tilemap_cel"],
      "Observation point Frame::image: both rasterisers are proved (Verus, real text) to hand every source pixel to the blend function with the opacity product round8(layer, cel) and to write its result unchanged, so the laws of the blend functions carry over to frame images. The three laws are proved for all 19 modes (HSL included: alpha never flows through f64) from the contracts of normal / merge with every other callee uninterpreted. Range clause: integer modes via the leaf contracts (reference value in 0..=255 and equal to the truncated result) and normal's full-domain safety; soft light range proved; HSL packed range only bounded-exec.")
-prop("C18", "exploration", ["x_utils"], "util.rs uses iterator chains and IntMap; bounded-exec on all sizes 1..8 x 1..8 plus seeded sizes and palettes.")
+prop("C18", "proof", ["v_extrude_border", "v_palette_mapper_new", "v_palette_mapper_lookup", "x_utils"], "extrude_border, PaletteMapper::new and PaletteMapper::lookup are Verus contracts on the real text (unbounded sizes / palettes; the row iterator chain and IntMap iteration are trusted shims); to_indexed_image (an iterator map/collect over image::pixels) and the feature gate are bounded-exec.")
 prop("C19", "proof", ROUTES_V + [a for a in ACC_V if a.startswith("v_acc_cel_")] + ["v_layer_image", "v_write_cel", "v_frame_image", "x_cels_table", "x_routes", "x_frames_vs_spec"], "The three routes (AsepriteFile::cel, Frame::layer, Layer::frame) and the cel accessors frame / layer / is_empty are Verus contracts on the real text: all three construct the cel id (frame, layer) of the same file, so coordinates and emptiness agree by construction (swapped arguments fail the postcondition). Offset, user data and images go through the cel table and the renderer: compared on seeded sprites with frames != layers; single-visible-layer frame == cel image and tilemap image == cel image are bounded-exec.")
